@@ -481,7 +481,7 @@ def py_expressible(t, v):
     return True
 
 
-ND_FORMS = ("nd", "ndF", "ndS", "ndD", "ndR", "ndFD", "ndTD")
+ND_FORMS = ("nd", "ndF", "ndS", "ndD", "ndR", "ndFD", "ndTD", "ndB")
 
 
 def nd_array(kind, v, form):
@@ -505,6 +505,8 @@ def nd_array(kind, v, form):
         a = big[sl]
     elif form == "ndR":  # reversed (negative strides) along the first axis
         a = a[::-1].copy()[::-1]
+    elif form == "ndB":  # same item type in the non-native byte order (same values)
+        a = a.astype(dt.newbyteorder())
     return a
 
 
